@@ -42,6 +42,10 @@ CHECKS = {
          "For generators accepted by run_block_generator2 (all CREATE_COIN memo shapes, amount encodings, unknown/non-atom opcodes, spend-level extra fields): additions_and_removals, get_coinspends_for_trusted_block (incl. re-validation of the rebuilt generator), get_coinspends_with_conditions_for_trusted_block, get_puzzle_and_solution_for_coin for every removed coin, and SpendBundle::additions (for bundles also valid under mempool strictness) must report what validation reports.",
          "The validated conditions are the reference. SpendBundle::additions is asserted only for bundles valid under mempool strictness (in pure consensus mode a pair opcode is ignored, this convenience helper refuses it).",
          "DESIGN.md section 4, C09"),
+ "C10": ("proptest stateful (model-based) add/finalize histories for both builders; model of accepted attempts, consensus re-run, fresh-builder comparison, exact-fit probing with a shadow builder",
+         "Histories of 1-24 add_spend_bundles attempts (batches of 1-3 bundles from a pool with cross-bundle shared sub-trees, declared costs truthful / inflated / arbitrary / exact-fit computed with a shadow builder) followed by finalize, for BlockBuilder and InternedBlockBuilder: a rejected attempt leaves cost() unchanged; the finalized generator decodes to exactly the multiset of spends of the accepted attempts; the signature is the aggregate of exactly theirs; returned cost <= max_block_cost_clvm, <= the last cost() estimate, and equal to run_block_generator2's cost for truthful declarations; a fresh builder fed only the accepted attempts yields the same spends/signature and accepts the same later attempts; finalize never panics (in-flight recorder + process-death attribution).",
+         "An attempt is the whole batch (one declared cost, one limit test, one undo). Declared costs above twice the block limit are outside the documented contract and not generated. Byte-for-byte equality of generators is measured, not asserted.",
+         "DESIGN.md section 4, C10"),
  "C11": ("bounded-exhaustive enumeration + proptest random values against an arithmetic (num-bigint) reference and the interpreter's own encoder",
          "Every integer encoder/decoder in the tree (Coin::coin_id, u64_to_bytes, clvm_bytes_len, clvm-traits ints of every width, compute_coin_id and the AGG_SIG_AMOUNT suffix as consensus reports them, sanitize_uint widths 4/8) is compared with an arithmetic reference and with clvmr's Allocator::new_number on: all boundary values (2^k±3, all 1-/2-bit patterns, all 16-bit values), every value below 2^27 (quick) / 2^32 (thorough), millions of random values of every bit length, every atom of length ≤2 and every atom of length 3..10 over {00,01,7f,80,ff}. Exhaustive on those finite sub-domains, sampled elsewhere; a moved ladder threshold is caught because the thresholds themselves are enumerated.",
          "Trusts num-bigint's two's-complement conversion and clvmr's Allocator (cross-checked against each other in every case). Private helpers are observed through their public callers.",
